@@ -44,6 +44,7 @@ FLOORS = {
     "thorough": {"regenerate_checks": 2500, "weight_checks": 2000, "event_matches": 1500, "law_instances": 60, "sel_empty": 400, "sel_all": 400, "reach_into_scan": 150, "reach_into_vmap": 150},
 }
 TIMEOUT_S = {"quick": 1500, "thorough": 5400}
+CLEAR_CACHES_EVERY = {"quick": 0, "thorough": 6}  # see lib/worker.py
 N_CASES = {"quick": 64, "thorough": 640}
 FAMILY_CYCLE = ["mixed", "probe", "discrete", "builtin", "bare", "bare-discrete"]
 
